@@ -19,7 +19,7 @@ use std::time::Duration;
 pub struct C09;
 
 /// runs that consume more frames than the decoder's ring buffer holds (16384), so that its wrap-around is crossed
-const LONG_CASES: u64 = 4;
+const LONG_CASES: u64 = 6;
 
 const RATES: [f64; 5] = [1.0, 0.5, 2.0, 1.5, 0.0];
 const PACKETS: [&[usize]; 5] = [&[1], &[2], &[3], &[64], &[1, 3, 2]];
@@ -70,7 +70,7 @@ impl Check for C09 {
 	}
 	fn describe(&self, tier: Tier, idx: u64) -> String {
 		if idx >= ncases(tier) {
-			return format!("long run #{}: 41-frame audio looping, 17000+ frames consumed (crosses the wrap-around of the 16384-frame decoder ring)", idx - ncases(tier));
+			return format!("long run #{}: 41-frame audio looping, 17000+ frames consumed (crosses the wrap-around of the 16384-frame decoder ring); runs 4 and 5: with a pause whose fade-out consumes 18000 source frames, then a resume", idx - ncases(tier));
 		}
 		let (len, rate, p, g) = decode(tier, idx);
 		format!(
@@ -377,11 +377,13 @@ fn run(sc: &Sc, ctx: &mut Ctx) {
 fn long_run(which: u64, ctx: &mut Ctx) {
 	let sr = 1u32;
 	let len = 41usize;
-	let rate = [1.0, 0.75, 2.0, 1.0][which as usize];
-	let chunk = [64usize, 50, 64, 7][which as usize];
+	let rate = [1.0, 0.75, 2.0, 1.0, 1.0, 2.0][which as usize];
+	let chunk = [64usize, 50, 64, 7, 64, 64][which as usize];
+	// runs 4 and 5: a pause whose fade-out alone consumes more source frames than the decoder ring holds, then a resume
+	let long_pause = which >= 4;
 	let frames: Vec<Frame> = (0..len).map(|i| Frame::new(((i * 37) % 64) as f32 / 128.0, -(((i * 11) % 32) as f32) / 128.0)).collect();
 	let sd = rig::static_data(sr, frames.clone()).loop_region(reg(3, 40)).playback_rate(PlaybackRate(rate));
-	let (mut ss, _hs) = sd.into_sound().expect("static");
+	let (mut ss, mut hs) = sd.into_sound().expect("static");
 	let first = pacer::count();
 	let (dec, stats) = ScriptedDecoder::new(frames, sr, vec![5, 1, 3], 4);
 	let td = StreamingSoundData::from_decoder(dec).loop_region(reg(3, 40)).playback_rate(PlaybackRate(rate));
@@ -389,11 +391,20 @@ fn long_run(which: u64, ctx: &mut Ctx) {
 	let info = MockInfoBuilder::new().build();
 	let mut so = vec![Frame::ZERO; chunk];
 	let mut to = vec![Frame::ZERO; chunk];
-	let total_frames = (17200.0 / rate.max(0.5)) as usize;
+	let total_frames = if long_pause { (24000.0 / rate) as usize } else { (17200.0 / rate.max(0.5)) as usize };
+	let fade_frames = 18000.0 / rate;
 	let mut done = 0usize;
 	ctx.evals += 1;
 	ctx.traces += 1;
 	while done < total_frames {
+		if long_pause && done == 640 {
+			hs.pause(tw(fade_frames));
+			ht.pause(tw(fade_frames));
+		}
+		if long_pause && done == 640 + (fade_frames as usize / chunk + 4) * chunk {
+			hs.resume(tw(100.0));
+			ht.resume(tw(100.0));
+		}
 		pacer::step(first, (chunk as f64 * rate).ceil() as u64 + 8);
 		ss.on_start_processing();
 		ts.on_start_processing();
